@@ -63,6 +63,17 @@ EXTRA_REJECT = {
 }
 
 
+# unsupported arguments given POSITIONALLY (the guard must not only look at keywords)
+POSITIONAL_REJECT = {
+    "dropout": lambda U, x: U.dropout(x, 0.5, True, True),
+    "silu": lambda U, x: U.silu(x, 1.0, "to_output_scale", True),
+    "add": lambda U, x: U.add(x, x, "to_output_scale", 2),
+    "embedding": lambda U, x: U.embedding(x.long().abs() % 3, x.new_ones(3, 2), None, None, 2.0, True),
+    "mse_loss": lambda U, x: U.mse_loss(x, x, False),
+    "cross_entropy": lambda U, x: U.cross_entropy(x.reshape(1, -1), x.new_zeros(1).long(), x.new_ones(x.numel())),
+}
+
+
 def cases(tier: str, seed: int) -> List[Dict[str, Any]]:
     from models.ops import OPS, default_cfg
 
@@ -79,6 +90,8 @@ def cases(tier: str, seed: int) -> List[Dict[str, Any]]:
     for name, op in OPS.items():
         for kw in list(op.unsupported) + EXTRA_REJECT.get(name, []):
             out.append({"kind": "reject", "op": name, "kw": kw})
+    for name in POSITIONAL_REJECT:
+        out.append({"kind": "reject_positional", "op": name})
     return out
 
 
@@ -108,6 +121,17 @@ def run_case(case: Dict[str, Any]) -> Dict[str, Any]:
             viol.append({"key": f"{op.name}|unsupported_arg_accepted|{','.join(case['kw'])}",
                          "msg": f"{op.name}(**{case['kw']}) returned {tuple(y.shape)} instead of raising"})
         except Exception:  # noqa - any error is a rejection
+            pass
+        return {"violations": viol, "outcome": "rejected" if not viol else "accepted"}
+
+    if case["kind"] == "reject_positional":
+        import unit_scaling.functional as U
+
+        x = torch.randn(6, dtype=torch.float64)
+        try:
+            y = POSITIONAL_REJECT[case["op"]](U, x)
+            viol.append({"key": f"{op.name}|unsupported_positional_arg_accepted", "msg": f"returned {tuple(y.shape)}"})
+        except Exception:  # noqa
             pass
         return {"violations": viol, "outcome": "rejected" if not viol else "accepted"}
 
